@@ -271,3 +271,72 @@ Lemma count_done_le_length q : count_done q <= length q.
 Proof.
   unfold count_done. induction q as [|e q IH]; cbn; [lia|]. destruct (is_fdone (snd e)); cbn; lia.
 Qed.
+
+(* ---------- NoDup over ready ++ busy ---------- *)
+Lemma NoDup_app_disj {A} (a b : list A) x : NoDup (a ++ b) -> In x a -> In x b -> False.
+Proof.
+  induction a as [|y a IH]; cbn; [tauto|]. intros H. inversion H as [|? ? Hy Hl]; subst.
+  intros [->|Ha] Hb; [apply Hy, in_or_app; now right|eauto].
+Qed.
+Lemma NoDup_app_l {A} (a b : list A) : NoDup (a ++ b) -> NoDup a.
+Proof.
+  induction a as [|y a IH]; cbn; [constructor|]. intros H. inversion H as [|? ? Hy Hl]; subst.
+  constructor; [|auto]. intros Ha. apply Hy, in_or_app. now left.
+Qed.
+Lemma NoDup_app_r {A} (a b : list A) : NoDup (a ++ b) -> NoDup b.
+Proof. induction a as [|y a IH]; cbn; [tauto|]. intros H. inversion H; subst. auto. Qed.
+Lemma NoDup_app_intro {A} (a b : list A) :
+  NoDup a -> NoDup b -> (forall x, In x a -> In x b -> False) -> NoDup (a ++ b).
+Proof.
+  induction a as [|y a IH]; cbn; [tauto|]. intros Ha Hb D. inversion Ha as [|? ? Hy Hl]; subst.
+  constructor.
+  - intros X. apply in_app_or in X. destruct X as [X|X]; [tauto|]. eapply D; eauto.
+  - apply IH; eauto.
+Qed.
+(* ready.pop() / busy.add(x) *)
+Lemma NoDup_move_rb x r b : NoDup (r ++ b) -> In x r -> NoDup (remove1 x r ++ x :: b).
+Proof.
+  intros H Hx. apply NoDup_app_intro.
+  - apply remove1_NoDup. eapply NoDup_app_l; eauto.
+  - constructor; [|eapply NoDup_app_r; eauto]. intros Hb. eapply NoDup_app_disj; eauto.
+  - intros y Hy [<-|Hb].
+    + apply remove1_In_iff in Hy; [tauto|]. eapply NoDup_app_l; eauto.
+    + apply remove1_In in Hy. eapply NoDup_app_disj; eauto.
+Qed.
+(* busy.remove(x) / ready.add(x) *)
+Lemma NoDup_move_br x r b : NoDup (r ++ b) -> In x b -> NoDup ((x :: r) ++ remove1 x b).
+Proof.
+  intros H Hx. apply NoDup_app_intro.
+  - constructor; [|eapply NoDup_app_l; eauto]. intros Hr. eapply NoDup_app_disj; eauto.
+  - apply remove1_NoDup. eapply NoDup_app_r; eauto.
+  - intros y [<-|Hy] Hb.
+    + apply remove1_In_iff in Hb; [tauto|]. eapply NoDup_app_r; eauto.
+    + apply remove1_In in Hb. eapply NoDup_app_disj; eauto.
+Qed.
+Lemma NoDup_filter_app {A} (f : A -> bool) (a b : list A) : NoDup (a ++ b) -> NoDup (filter f a ++ b).
+Proof.
+  intros H. apply NoDup_app_intro.
+  - apply NoDup_filter. eapply NoDup_app_l; eauto.
+  - eapply NoDup_app_r; eauto.
+  - intros x Hx Hb. apply filter_In in Hx. eapply NoDup_app_disj; eauto. tauto.
+Qed.
+Lemma filter_length_le {A} (f : A -> bool) l : length (filter f l) <= length l.
+Proof. induction l as [|x l IH]; cbn; [lia|]. destruct (f x); cbn; lia. Qed.
+
+Lemma cw_status_Some_of_In q c : In c (map fst q) -> exists st, cw_status q c = Some st.
+Proof.
+  intros H. destruct (cw_status q c) eqn:E; [eauto|]. apply cw_status_None in E. contradiction.
+Qed.
+Lemma has_pending_app q e : has_pending (q ++ [e]) <-> has_pending q \/ snd e = FPending.
+Proof.
+  unfold has_pending. split.
+  - intros [c H]. apply in_app_or in H. destruct H as [H|[H|[]]]; [left; eauto|right; now subst e].
+  - intros [[c H]|H]; [exists c; apply in_or_app; now left|].
+    destruct e as [c f]; cbn in H; subst. exists c. apply in_or_app. right. now left.
+Qed.
+Lemma has_pending_remove q c : has_pending (cw_remove q c) -> has_pending q.
+Proof. intros [u H]. exists u. eapply cw_remove_In; eauto. Qed.
+Lemma has_pending_notify q : has_pending (cw_notify q) -> has_pending q.
+Proof. intros [u H]. exists u. now apply cw_notify_pending. Qed.
+Lemma has_pending_cancel q c : has_pending (cw_cancel q c) -> has_pending q.
+Proof. intros [u H]. exists u. eapply cw_cancel_pending; eauto. Qed.
